@@ -183,13 +183,17 @@ ST_ASSUME = ["module accounts never sign; signers are canonical bech32 addresses
              "block time is non-decreasing; third-party bank transfers into gauge or escrow accounts are outside the quantifier"]
 
 
-def st(fields=None, ops=None, opfields=None):
-    """relevance filter over driver DIFF lines of the storage model"""
+def st(fields=None, ops=None, opfields=None, queries=None):
+    """relevance filter over driver DIFF lines of the storage model; `queries`: the query-server
+    answers (mod "query", op "storage.<query>") the property's statement speaks about"""
     fields = set(fields or [])
     ops = set(ops or [])
     opfields = opfields or {}
+    queries = set("storage." + q for q in (queries or []))
 
     def rel(d):
+        if d["mod"] == "query":
+            return d["op"] in queries
         if d["mod"] == "panic":
             # a panicking Begin/EndBlock ends the history: for a property that constrains block
             # transitions the correspondence (the model predicts no panic) no longer checks
@@ -209,7 +213,8 @@ def st(fields=None, ops=None, opfields=None):
 
 STORAGE_PROPS = {
     "C01": dict(main="proofs", extra=("forms",), monitor=mon_storage.C01, stateful=True,
-                rel=st(fields=["verify", "success"], ops=["postProof"], opfields={"block": ["files", "files2", "proofs", "bank"], "attest": ["proofs"], "postFile": ["files", "proofs"]})),
+                rel=st(fields=["verify", "success"], ops=["postProof"], opfields={"block": ["files", "files2", "proofs", "bank"], "attest": ["proofs"], "postFile": ["files", "proofs"]},
+                       queries=["proof", "proofsByAddress"])),
     "C02": dict(main="proofs", monitor=mon_storage.c02, facts=facts.gen_pure_fns,
                 rel=st(fields=["verify", "challenge"], ops=["postProof"], opfields={"block": ["files", "files2", "proofs", "providers"]})),
     "C03": dict(main="proofs", monitor=mon_storage.c03, facts=facts.gen_pure_fns,
@@ -219,15 +224,18 @@ STORAGE_PROPS = {
     "C05": dict(main="storage", extra=("payments", "forms", "mint", "rns", "notif", "filetree"), monitor=mon_storage.c05, panic=True,
                 rel=st(fields=["panic"], ops=["block"], opfields={"postFile": ["outcome", "files"]})),
     "C07": dict(main="plans", monitor=mon_storage.c07,
-                rel=st(fields=["payinfo"], ops=["postFile", "deleteFile"], opfields={"buyStorage": ["outcome"], "block": ["files", "files2"]})),
+                rel=st(fields=["payinfo"], ops=["postFile", "deleteFile"], opfields={"buyStorage": ["outcome"], "block": ["files", "files2"]},
+                       queries=["payInfo", "allPayInfo", "payData", "clientFreeSpace", "fileUploadCheck"])),
     "C12": dict(main="payments", monitor=mon_storage.C12, stateful=True, facts=facts.gen_pure_fns,
-                rel=st(fields=["gauges"], opfields={"block": ["bank", "panic"], "postFile": ["bank"], "buyStorage": ["bank"]})),
+                rel=st(fields=["gauges"], opfields={"block": ["bank", "panic"], "postFile": ["bank"], "buyStorage": ["bank"]}, queries=["gauges"])),
     "C14": dict(main="forms", monitor=mon_storage.c14,
-                rel=st(fields=["attests", "reports"], ops=["attest", "report", "requestAttest", "requestReport"])),
+                rel=st(fields=["attests", "reports"], ops=["attest", "report", "requestAttest", "requestReport"],
+                       queries=["attestation", "allAttestations", "report", "allReports"])),
     "C15": dict(main="collateral", monitor=mon_storage.c15,
-                rel=st(fields=["collateral", "params"], ops=["initProvider", "shutdownProvider", "setParams"])),
+                rel=st(fields=["collateral", "params"], ops=["initProvider", "shutdownProvider", "setParams"], queries=["provider", "allProviders"])),
     "C17": dict(main="storage", monitor=mon_storage.c17, facts=facts.gen_pure_fns,
-                rel=st(fields=["files", "files2", "proofs", "keyshape"], opfields={"block": ["files", "files2", "proofs"]})),
+                rel=st(fields=["files", "files2", "proofs", "keyshape"], opfields={"block": ["files", "files2", "proofs"]},
+                       queries=["file", "allFiles", "allFilesByMerkle", "allFilesByOwner", "openFiles", "proof", "allProofs", "proofsByAddress", "findFile"])),
 }
 
 for _pid, _c in STORAGE_PROPS.items():
